@@ -364,8 +364,9 @@ private:
         m_senders_waiting++;
         DEFER(m_senders_waiting--);
 
-        // Wait for a receiver
-        while (!m_closed && m_receivers_waiting == 0 && !m_handoff_ready) {
+        // Wait for a receiver, and for the handoff slot to be free: another
+        // sender's value may still be in it, waiting to be taken
+        while (!m_closed && (m_receivers_waiting == 0 || m_handoff_ready)) {
             if (timeout.expired()) {
                 delete ptr;
                 errno = ETIMEDOUT;
@@ -429,7 +430,9 @@ private:
             delete m_handoff_ptr;
             m_handoff_ptr = nullptr;
             m_handoff_ready = false;
-            m_unbuf_send_cv.notify_one();
+            // wake the sender waiting for this ack *and* any sender waiting
+            // for the slot; notify_one() could pick the wrong one
+            m_unbuf_send_cv.notify_all();
             return true;
         }
 
@@ -462,7 +465,7 @@ private:
             delete m_handoff_ptr;
             m_handoff_ptr = nullptr;
             m_handoff_ready = false;
-            m_unbuf_send_cv.notify_one();
+            m_unbuf_send_cv.notify_all();
             return true;
         }
         return false;
